@@ -26,7 +26,7 @@ import sigtree as st
 from common import frac_str, run_driver
 
 TRUSTED = [
-    'Lean 4.33.0 kernel; axioms of every theorem in Props/C06.lean within {propext, Classical.choice, Quot.sound}',
+    'Lean 4.33.0 kernel; axioms of every theorem in Props/C06*.lean within {propext, Classical.choice, Quot.sound}',
     'harness/props/c06.py (closed-form circuit number in floating point, grid + Lipschitz enclosures with outward margins)',
     'ECOS (statuses other than solved are inconclusive; tolerance 1e-5 relative on values, decisions only outside a 1e-3 margin)',
 ]
